@@ -153,7 +153,77 @@ func canonicalOK(t *vlib.T, tm M, ctx string) bool {
 // only in the "close" fill, which is therefore checked as a multiset only.
 const locTol = 1e-7
 
+// twinSchur is a real Schur form whose two 2×2 blocks carry (almost) the same,
+// nearly defective complex eigenvalue pair 1 +- i*e1 and (1+e2) +- i*e1, coupled by
+// entries of size big; Dlaexc rejects the exchange of such blocks in a good part
+// of the cases. With pad > 0 a 1×1 block is put in front and one behind.
+func twinSchur(e1, e2, big float64, trial, pad int) M {
+	l := lcgFor(33, trial, pad)
+	n := 4 + 2*pad
+	t := newM(n, n)
+	for i := 0; i < n; i++ {
+		for j := i + 1; j < n; j++ {
+			t.set(i, j, big*float64(int(l.Next()%2001)-1000)/700)
+		}
+	}
+	o := pad
+	for k, sh := range []float64{0, e2} {
+		p := o + 2*k
+		t.set(p, p, 1+sh)
+		t.set(p+1, p+1, 1+sh)
+		t.set(p, p+1, 1)
+		t.set(p+1, p, -e1*e1)
+	}
+	if pad > 0 {
+		t.set(0, 0, -3)
+		t.set(n-1, n-1, 5)
+	}
+	return t
+}
+
+type twinCase struct {
+	e1, e2, big float64
+	trial, pad  int
+}
+
+func twinCases(g *vlib.G) []twinCase {
+	var out []twinCase
+	for _, e1 := range []float64{1e-6, 1e-8, 1e-10} {
+		for _, e2 := range []float64{0, 1e-12, 1e-8} {
+			for _, big := range []float64{1, 1e3} {
+				for trial := 0; trial < p3(g, 4, 12, 30); trial++ {
+					for _, pad := range []int{0, 1} {
+						out = append(out, twinCase{e1, e2, big, trial, pad})
+					}
+				}
+			}
+		}
+	}
+	return out
+}
+
 func genDtrexc(g *vlib.G) {
+	// magnitude ladder: Dtrexc/Dlaexc/Dlanv2/Dlasy2 get the matrix as it is
+	for _, exp := range ladder(g, -900, -800, -500, -200, 200, 500, 800, 900) {
+		for n := 2; n <= p3(g, 4, 5, 6); n++ {
+			for _, blocks := range compositions(n) {
+				for fill := 0; fill < 2; fill++ {
+					exp, n, blocks, fill := exp, n, blocks, fill
+					kase(g, fmt.Sprintf("Dtrexc n=%d blocks=%s fill=%d ld=n+2 scale=2^%d", n, blockLabel(blocks), fill, exp), func(t *vlib.T) {
+						runDtrexc(t, n, blocks, fill, 2, exp, nil, false)
+					})
+				}
+			}
+		}
+	}
+	// rejection path: nearly defective twin blocks
+	for _, c := range twinCases(g) {
+		c := c
+		kase(g, fmt.Sprintf("Dtrexc twins e1=%g e2=%g big=%g trial=%d pad=%d", c.e1, c.e2, c.big, c.trial, c.pad), func(t *vlib.T) {
+			tm := twinSchur(c.e1, c.e2, c.big, c.trial, c.pad)
+			runDtrexc(t, tm.r, nil, 3, c.trial%2*2, 0, &tm, true)
+		})
+	}
 	lim := p3(g, 6, 8, 9)
 	for n := 0; n <= lim; n++ {
 		for _, blocks := range compositions(n) {
@@ -164,7 +234,7 @@ func genDtrexc(g *vlib.G) {
 						return
 					}
 					kase(g, fmt.Sprintf("Dtrexc n=%d blocks=%s fill=%d ld=n+%d", n, blockLabel(blocks), fill, ldx), func(t *vlib.T) {
-						runDtrexc(t, n, blocks, fill, ldx)
+						runDtrexc(t, n, blocks, fill, ldx, 0, nil, false)
 					})
 				}
 			}
@@ -172,9 +242,21 @@ func genDtrexc(g *vlib.G) {
 	}
 }
 
-func runDtrexc(t *vlib.T, n int, blocks []int, fill, ldx int) {
+// runDtrexc: tIn overrides the generated Schur form; the input handed to Dtrexc
+// is scaled by 2^exp and the result scaled back exactly; ill marks inputs with
+// ill-conditioned (nearly defective, nearly equal) eigenvalues, for which the
+// spectrum is only compared within the Ostrowski-Elsner bound and positions are not checked.
+func runDtrexc(t *vlib.T, n int, blocks []int, fill, ldx, exp int, tIn *M, ill bool) {
 	t0 := schurInput(blocks, fill)
+	if tIn != nil {
+		t0 = *tIn
+	}
+	sc := pow2(exp)
 	nrm := fro(t0)
+	tolLoc := locTol
+	if ill {
+		tolLoc = specTol(false, n, nrm)
+	}
 	dim := fmax(n)
 	ld := ldOf(n, ldx)
 	ldqq := ldOf(n, off(ldx, 1))
@@ -201,7 +283,7 @@ func runDtrexc(t *vlib.T, n int, blocks []int, fill, ldx int) {
 			var tRef M
 			for _, compq := range []lapack.UpdateSchurComp{lapack.UpdateSchur, lapack.UpdateSchurNone} {
 				ctx := fmt.Sprintf("compq=%c ifst=%d ilst=%d", compq, ifst, ilst)
-				ts := fromM(t0, ld).snap()
+				ts := fromM(t0.scale(sc), ld).snap()
 				var qs *S
 				var qd []float64
 				ldq := 1
@@ -213,7 +295,7 @@ func runDtrexc(t *vlib.T, n int, blocks []int, fill, ldx int) {
 				if i, okp := ts.padOK(n, n); !okp {
 					t.Failf("padding of t modified at flat index %d [%s]", i, ctx)
 				}
-				t1 := ts.toM()
+				t1 := ts.toM().scale(1 / sc)
 				if !canonicalOK(t, t1, ctx) {
 					continue
 				}
@@ -259,10 +341,10 @@ func runDtrexc(t *vlib.T, n int, blocks []int, fill, ldx int) {
 						r1, i1 = append(r1, b.re), append(i1, -b.im)
 					}
 				}
-				if d := matchDist(r0, i0, r1, i1); !(d <= locTol) {
+				if d := matchDist(r0, i0, r1, i1); !(d <= tolLoc) {
 					t.Failf("spectrum changed by %.3g [%s]", d, ctx)
 				}
-				if ok && fill != 2 {
+				if ok && fill != 2 && !ill {
 					// the moved block now starts at ilstOut and the others keep their order
 					kl := blockAt(b0, ilst)
 					var want []blockEig
@@ -313,9 +395,29 @@ func runDtrexc(t *vlib.T, n int, blocks []int, fill, ldx int) {
 		t.Nontrivial()
 	}
 	t.Outcome(fmt.Sprintf("refused=%v", nFail > 0))
+	_ = tolLoc
 }
 
 func genDlaexc(g *vlib.G) {
+	for _, exp := range ladder(g, -900, -800, -500, -200, 200, 500, 800, 900) {
+		for n := 2; n <= p3(g, 4, 5, 6); n++ {
+			for _, blocks := range compositions(n) {
+				for fill := 0; fill < 2; fill++ {
+					exp, n, blocks, fill := exp, n, blocks, fill
+					kase(g, fmt.Sprintf("Dlaexc n=%d blocks=%s fill=%d ld=n+2 scale=2^%d", n, blockLabel(blocks), fill, exp), func(t *vlib.T) {
+						runDlaexc(t, n, blocks, fill, 2, exp, nil, false)
+					})
+				}
+			}
+		}
+	}
+	for _, c := range twinCases(g) {
+		c := c
+		kase(g, fmt.Sprintf("Dlaexc twins e1=%g e2=%g big=%g trial=%d pad=%d", c.e1, c.e2, c.big, c.trial, c.pad), func(t *vlib.T) {
+			tm := twinSchur(c.e1, c.e2, c.big, c.trial, c.pad)
+			runDlaexc(t, tm.r, nil, 3, c.trial%2*2, 0, &tm, true)
+		})
+	}
 	lim := p3(g, 6, 8, 10)
 	for n := 1; n <= lim; n++ {
 		for _, blocks := range compositions(n) {
@@ -326,7 +428,7 @@ func genDlaexc(g *vlib.G) {
 						return
 					}
 					kase(g, fmt.Sprintf("Dlaexc n=%d blocks=%s fill=%d ld=n+%d", n, blockLabel(blocks), fill, ldx), func(t *vlib.T) {
-						runDlaexc(t, n, blocks, fill, ldx)
+						runDlaexc(t, n, blocks, fill, ldx, 0, nil, false)
 					})
 				}
 			}
@@ -334,8 +436,12 @@ func genDlaexc(g *vlib.G) {
 	}
 }
 
-func runDlaexc(t *vlib.T, n int, blocks []int, fill, ldx int) {
+func runDlaexc(t *vlib.T, n int, blocks []int, fill, ldx, exp int, tIn *M, ill bool) {
 	t0 := schurInput(blocks, fill)
+	if tIn != nil {
+		t0 = *tIn
+	}
+	sc := pow2(exp)
 	nrm := fro(t0)
 	dim := fmax(n)
 	ld := ldOf(n, ldx)
@@ -348,7 +454,7 @@ func runDlaexc(t *vlib.T, n int, blocks []int, fill, ldx int) {
 		for _, wantq := range []bool{true, false} {
 			j1, n1, n2 := b0[k].start, b0[k].size, b0[k+1].size
 			ctx := fmt.Sprintf("wantq=%v j1=%d n1=%d n2=%d", wantq, j1, n1, n2)
-			ts := fromM(t0, ld).snap()
+			ts := fromM(t0.scale(sc), ld).snap()
 			var qs *S
 			var qd []float64
 			ldq := 1
@@ -376,7 +482,7 @@ func runDlaexc(t *vlib.T, n int, blocks []int, fill, ldx int) {
 			if i, okp := ts.padOK(n, n); !okp {
 				t.Failf("padding of t modified at flat index %d [%s]", i, ctx)
 			}
-			t1 := ts.toM()
+			t1 := ts.toM().scale(1 / sc)
 			if !canonicalOK(t, t1, ctx) {
 				continue
 			}
@@ -397,7 +503,7 @@ func runDlaexc(t *vlib.T, n int, blocks []int, fill, ldx int) {
 					t.Failf("diagonal block at row %d outside the swapped pair changed [%s]", i, ctx)
 				}
 			}
-			if fill != 2 {
+			if fill != 2 && !ill {
 				b1 := blocksOf(t1.sub(j1, j1+n1+n2, j1, j1+n1+n2))
 				// first the old second block (n2 rows), then the old first block (n1 rows)
 				rowEig := func(bs []blockEig) (re, im []float64) {
@@ -434,6 +540,26 @@ func runDlaexc(t *vlib.T, n int, blocks []int, fill, ldx int) {
 var lanv2Alphabet = []float64{0, 1, -1, 2, -3, 0.5, 0x1p-30, -0x1p-30, 0x1p+30, 1 + 0x1p-40, 7, -0x1p+20}
 
 func genDlanv2(g *vlib.G) {
+	// magnitude ladder: a reduced alphabet times 2^e, checked after exact rescaling
+	small := []float64{0, 1, -1, 2, -3, 0.5, 7, 1 + 0x1p-20}
+	for _, exp := range ladder(g, -1000, -800, -500, -484, -200, 200, 487, 500, 800, 1000) {
+		for _, a := range small {
+			exp, a := exp, a
+			kase(g, fmt.Sprintf("Dlanv2 a=%v*2^%d", a, exp), func(t *vlib.T) {
+				sc := pow2(exp)
+				kinds := map[string]int{}
+				for _, b := range small {
+					for _, c := range small {
+						for _, d := range small {
+							kinds[checkLanv2Scaled(t, a*sc, b*sc, c*sc, d*sc, sc)]++
+						}
+					}
+				}
+				t.Nontrivial()
+				t.Outcome(fmt.Sprintf("real=%v complex=%v", kinds["real"] > 0, kinds["complex"] > 0))
+			})
+		}
+	}
 	for _, a := range lanv2Alphabet {
 		for _, b := range lanv2Alphabet {
 			a, b := a, b
@@ -454,8 +580,14 @@ func genDlanv2(g *vlib.G) {
 	}
 }
 
-func checkLanv2(t *vlib.T, a, b, c, d float64) string {
+func checkLanv2(t *vlib.T, a, b, c, d float64) string { return checkLanv2Scaled(t, a, b, c, d, 1) }
+
+// checkLanv2Scaled calls Dlanv2 on the given (already scaled) entries and checks
+// the results after dividing them by the power of two sc.
+func checkLanv2Scaled(t *vlib.T, a, b, c, d, sc float64) string {
 	aa, bb, cc, dd, rt1r, rt1i, rt2r, rt2i, cs, sn := impl.Dlanv2(a, b, c, d)
+	a, b, c, d = a/sc, b/sc, c/sc, d/sc
+	aa, bb, cc, dd, rt1r, rt1i, rt2r, rt2i = aa/sc, bb/sc, cc/sc, dd/sc, rt1r/sc, rt1i/sc, rt2r/sc, rt2i/sc
 	ctx := fmt.Sprintf("c=%v d=%v -> aa=%v bb=%v cc=%v dd=%v rt1=(%v,%v) rt2=(%v,%v) cs=%v sn=%v", c, d, aa, bb, cc, dd, rt1r, rt1i, rt2r, rt2i, cs, sn)
 	if !allFinite([]float64{aa, bb, cc, dd, rt1r, rt1i, rt2r, rt2i, cs, sn}) {
 		t.Failf("non-finite output [%s]", ctx)
@@ -674,6 +806,16 @@ func runDgebal(t *vlib.T, n, seed int, job lapack.BalanceJob, ldx int) {
 // Dtrevc3
 
 func genDtrevc3(g *vlib.G) {
+	for _, exp := range ladder(g, -800, -500, -200, 200, 500, 800) {
+		for n := 2; n <= p3(g, 3, 4, 5); n++ {
+			for _, blocks := range compositions(n) {
+				exp, n, blocks := exp, n, blocks
+				kase(g, fmt.Sprintf("Dtrevc3 n=%d blocks=%s fill=0 prof=nb2 ld=+2 scale=2^%d", n, blockLabel(blocks), exp), func(t *vlib.T) {
+					runDtrevc3(t, n, blocks, 0, profiles[0], 2, false, exp)
+				})
+			}
+		}
+	}
 	lim := p3(g, 5, 6, 7)
 	profs := []prof{profiles[0], profiles[1], profiles[2]}
 	for n := 0; n <= lim; n++ {
@@ -686,7 +828,7 @@ func genDtrevc3(g *vlib.G) {
 							return
 						}
 						kase(g, fmt.Sprintf("Dtrevc3 n=%d blocks=%s fill=%d prof=%s ld=+%d", n, blockLabel(blocks), fill, p.name, ldx), func(t *vlib.T) {
-							runDtrevc3(t, n, blocks, fill, p, ldx, false)
+							runDtrevc3(t, n, blocks, fill, p, ldx, false, 0)
 						})
 					}
 				}
@@ -722,14 +864,15 @@ func genDtrevc3(g *vlib.G) {
 					return
 				}
 				kase(g, fmt.Sprintf("Dtrevc3 n=%d blocks=%s long", n, blockLabel(blocks)), func(t *vlib.T) {
-					runDtrevc3(t, n, blocks, 0, profiles[0], 1, true)
+					runDtrevc3(t, n, blocks, 0, profiles[0], 1, true, 0)
 				})
 			}
 		}
 	}
 }
 
-func runDtrevc3(t *vlib.T, n int, blocks []int, fill int, p prof, ldx int, long bool) {
+func runDtrevc3(t *vlib.T, n int, blocks []int, fill int, p prof, ldx int, long bool, exp int) {
+	sc := pow2(exp)
 	log, restore := p.install()
 	defer restore()
 	tm := schurInput(blocks, fill)
@@ -754,7 +897,7 @@ func runDtrevc3(t *vlib.T, n int, blocks []int, fill int, p prof, ldx int, long 
 		for _, how := range []lapack.EVHowMany{lapack.EVAll, lapack.EVAllMulQ} {
 			for _, lw := range []string{"min", "query", "17n", "19n+1"} {
 				ctx := fmt.Sprintf("side=%c howmny=%c lwork=%s", side, how, lw)
-				ts := fromM(tm, ldt).snap()
+				ts := fromM(tm.scale(sc), ldt).snap()
 				var vls, vrs *S
 				var vld, vrd []float64
 				ldvl, ldvr := 1, 1
@@ -830,7 +973,7 @@ func runDtrevc3(t *vlib.T, n int, blocks []int, fill int, p prof, ldx int, long 
 				}
 			}
 			mm := len(cols)
-			ts := fromM(tm, ldt).snap()
+			ts := fromM(tm.scale(sc), ldt).snap()
 			var vls, vrs *S
 			var vld, vrd []float64
 			ldvl, ldvr := 1, 1
